@@ -6,11 +6,30 @@
 //! * [`engine`] SessionContext factory over MemTables + typed result canonicalisation,
 //! * [`reference`] the independent reference interpreter,
 //! * [`compare`] result comparison (multiset / ordered with ties / LIMIT over ties).
+//!
+//! Typical use from a check binary:
+//! ```ignore
+//! use chk_sql::sqlmc::{self, grammar, db, engine, oracle, compare};
+//! let qs = grammar::queries(grammar::Tier::Quick);           // Vec<GenQuery>: sql, ast, tags, flags, tables
+//! for (label, dbv) in db::rich_databases() {                  // or db::for_each_db_bounded(..)
+//!     let ctx = engine::make_context(&dbv, &sqlmc::ContextOptions::default())?;   // layout / SessionConfig / text encoding
+//!     for q in &qs {
+//!         let direct = engine::run_sql(&ctx, &q.sql);         // Result<QueryResult, String>
+//!         // metamorphic twin: engine::run_plan(&ctx, plan) / engine::run_df(df) / another context
+//!         // compare::compare_engine_results(&a.rows, &b.rows, &(&q.flags).into())
+//!         // or against the reference: oracle::check_one(&ctx, &q.sql, &q.ast, &dbv)
+//!     }
+//! }
+//! ```
+//! All engine calls run on a thread-local current-thread tokio runtime
+//! ([`engine::block_on`]), so they can be issued from rayon workers.
 pub mod ast;
 pub mod compare;
 pub mod db;
+pub mod dml;
 pub mod engine;
 pub mod grammar;
+pub mod oracle;
 mod grammar2;
 mod grammar3;
 pub mod reference;
